@@ -225,8 +225,8 @@ func (s *scheduler) pick(cands []*task) *task {
 
 // yield is a scheduling point at which the current task could continue.
 func (s *scheduler) yield(what string) {
-	if s.preempt >= s.maxPreempt {
-		return
+	if s.preempt >= s.maxPreempt || s.i.inLazyInit > 0 {
+		return // (package initialisers run to completion: Go runs them before main)
 	}
 	var cands []*task
 	for _, t := range s.runnable(s.cur) {
